@@ -369,12 +369,18 @@ def run_check(prop, tier, replay=None):
         model = prop.post_model(lines, model)
 
     # 4. compare + oracle
-    mism, fails, knowns = [], [], {}
+    mism, fails, knowns, tie_why = [], [], {}, {}
     for i, c in enumerate(cases):
         if model[i] is not None and prop.project(impl[i]) != (prop.project_model(model[i]) if hasattr(prop, 'project_model') else prop.project(model[i])):
             mism.append(i)
         why = prop.oracle(c, impl[i])
-        if why:
+        if why and why.startswith('TIE:'):
+            # the premise under which the property is explored no longer holds for this input (e.g. a schema the
+            # statement presupposes to be accepted is refused): the tie is broken, the input does not refute the property
+            if i not in mism:
+                mism.append(i)
+            tie_why[i] = why[4:]
+        elif why:
             k = match_known(known, c, why)
             if k:
                 knowns.setdefault(k['id'], (k, c, why))
@@ -382,6 +388,10 @@ def run_check(prop, tier, replay=None):
                 fails.append((i, why))
     extra_fail = prop.extra_checks(tier, rng, cases, impl) if hasattr(prop, 'extra_checks') else []
     for (c, why) in extra_fail:
+        if why.startswith('TIE:'):
+            cases.append(c); impl.append('(extra)'); model.append(None)
+            mism.append(len(cases) - 1); tie_why[len(cases) - 1] = why[4:]
+            continue
         k = match_known(known, c, why)
         if k:
             knowns.setdefault(k['id'], (k, c, why))
@@ -447,7 +457,8 @@ def run_check(prop, tier, replay=None):
             what.append('correspondence model/implementation differs on %d of %d cases' % (len(mism), len(cases)))
         body = what + ['theorems: ' + ', '.join(pr['theorems'])]
         for i in mism[:20]:
-            body += ['case: ' + cases[i].line, '  impl : ' + str(impl[i]), '  model: ' + str(model[i])]
+            body += ['case: ' + cases[i].line, '  impl : ' + str(impl[i]), '  model: ' + str(model[i])] + \
+                    (['  note : ' + tie_why[i]] if i in tie_why else [])
         rp = write_replay(pid, 'broken-%s.txt' % tier, 'tier=%s seed=%d reason=tie-or-proof-broken' % (tier, seed), body)
         print('VIOLATION property=%s replay=%s no-failing-input-found' % (pid, rp))
         rc = 1
